@@ -1,4 +1,5 @@
 import Qv.Model.Basic
+import Qv.Model.EVal
 /-!
 # Qv.Model.Results — `AnnealResult` / `AnnealResults` as a state machine (C13)
 
@@ -6,7 +7,9 @@ Executable model of `qubovert/sim/_anneal_results.py` **as it is**, including th
 `AnnealResults` inherits from `list` without overriding it (`sort`, `reverse`).  Core Lean only.
 
 * a result is `(state, value, spin)`; a state (`dict` label → int) is an association list in sorted
-  label order (the harness canonicalises; equality of such lists is `dict` equality);
+  label order (the harness canonicalises; equality of such lists is `dict` equality); a value is an
+  extended rational `EVal` = ℚ ∪ {+inf, -inf} (`float('inf')` is an ordinary value of a result — the
+  usual tag of an infeasible state; NaN is outside the model, see `Qv/Model/EVal.lean`);
 * a collection is `(items, best)`; every method returns the new collection, the derived collection,
   or the exception the code raises — `TypeError` / `AttributeError` from comparing with a `None`
   `best` included, and `best` left stale by the inherited mutators;
@@ -25,7 +28,7 @@ abbrev PState := List (Nat × Int)
 /-- `AnnealResult(state, value, spin)`; `__eq__` is structural equality, `__lt__` compares `value` -/
 structure Result where
   state : PState
-  value : Rat
+  value : EVal
   spin : Bool
   deriving DecidableEq, Repr, Inhabited
 
@@ -338,7 +341,7 @@ structure M where
 inductive Op
   | construct (l : List Result)            -- cur = AnnealResults(l)
   | append (r : Result)
-  | addState (st : PState) (v : Rat) (sp : Bool)
+  | addState (st : PState) (v : EVal) (sp : Bool)
   | insert (i : Int) (r : Result)
   | remove (r : Result)
   | pop (i : Int)
